@@ -94,6 +94,10 @@ class AbstractChunk(ABC):
         # Begin with a thorough inspection of the dataset
         data = utils.check_data_consistency(data, req_cols=self.DATA_COLS)
 
+        # The index labels carry no information, but rows get selected by label further down:
+        # make sure the labels are unique (they are not if users concatenate per-ceilometer frames).
+        data = data.reset_index(drop=True)
+
         # By default we set this flag to false and overwrite if enough hits are present
         self._clouds_above_msa_buffer = False
 
